@@ -1,15 +1,165 @@
-/- T2N.Model.Pt — STUB (to be replaced by the model of src/lang/pt/mod.rs) -/
+/-
+  T2N.Model.Pt — model of `src/lang/pt/mod.rs` (struct `Portuguese`).
+
+  Peculiarities of this interpreter (all modelled literally):
+  * a pre-check `!b.is_empty() && num_marker != b.marker ⇒ Err(Overlap)` that leaves the builder
+    (flags included) untouched;
+  * the guard `smaller_blocked` depends on the marker of the *incoming word* (`num_marker.is_none()`),
+    so the vocabulary is parameterised by that Boolean;
+  * the builder flags are rewritten after every `match`: `Ok ⇒ next_restrictions`,
+    `Err(Incomplete) ⇒ CONJUNCTION`, any other error ⇒ 0;
+  * no lemma occurs in two arms of the `match`, hence a failing `if` guard always ends in
+    `_ => Err(NaN)`.
+-/
 import T2N.Model.Lang
 
 namespace T2N.Pt
 
+/-- `Restriction::CONJUNCTION` -/
+def CONJUNCTION : Nat := 1
+/-- `Restriction::ONLY_MULTIPLIERS` -/
+def ONLY_MULTIPLIERS : Nat := 2
+
+/-- `lemmatize`: the `if / else if` chain, in order. `trim_end_matches` strips *repeatedly*. -/
+def lemmatize (w : Word) : Word :=
+  if endsWith w w!"a" then trimEndBy (· == 'a') w
+  else if endsWith w w!"as" && w != w!"duas" then trimEndStr w!"as" w
+  else if endsWith w w!"o" && w != w!"zero" then trimEndBy (· == 'o') w
+  else if endsWith w w!"os" then trimEndStr w!"os" w
+  else w
+
+/-- lemmas for which `get_morph_marker` keeps the probable marker (besides `…im`) -/
+def ordinalLemmas : List Word := [
+  w!"primeir", w!"segund", w!"terceir", w!"quart", w!"quint", w!"sext", w!"sétim", w!"oitav", w!"non"]
+
+/-- `get_morph_marker` -/
+def morph (w : Word) : Marker :=
+  let lemma := lemmatize w
+  let prob : Option Marker :=
+    if endsWith w w!"a" then some (.ordinal .fa)
+    else if endsWith w w!"as" then some (.ordinal .fas)
+    else if endsWith w w!"o" then some (.ordinal .mo)
+    else if endsWith w w!"os" then some (.ordinal .mos)
+    else none
+  match prob with
+  | none => .none
+  | some m =>
+    if ordinalLemmas.contains lemma then m
+    else if endsWith lemma w!"im" then m
+    else .none
+
+/-- `only_multipliers = restrictions.contains(ONLY_MULTIPLIERS)` -/
+def onlyMult : Guard := .flag ONLY_MULTIPLIERS
+
+/-- `smaller_blocked = only_multipliers || !restrictions.contains(CONJUNCTION) && num_marker.is_none() && !b.is_free(4)`;
+`mnone` is `num_marker.is_none()` (a property of the word, not of the builder). -/
+def smallerBlocked (mnone : Bool) : Guard :=
+  if mnone then .or onlyMult (.and (.neg (.flag CONJUNCTION)) (.neg (.free 4)))
+  else onlyMult
+
+/-- cardinal units: `if b.peek(2) != b"10" && !smaller_blocked => b.put(d)` -/
+def unit (mnone : Bool) (d : Nat) : Act :=
+  .when (.and (.neg (.peekEq 2 [1, 0])) (.neg (smallerBlocked mnone))) (.put [d])
+
+/-- `if !smaller_blocked => b.put(ds)` -/
+def small (mnone : Bool) (ds : List Nat) : Act := .when (.neg (smallerBlocked mnone)) (.put ds)
+
+/-- `if !only_multipliers => b.put(ds)` -/
+def hundreds (ds : List Nat) : Act := .when (.neg onlyMult) (.put ds)
+
+/-- the "mil" | "milésim" arm -/
+def mil : Act :=
+  .when (.and (.rangeFree 3 5) (.or onlyMult (.neg (.peekEq 3 [1, 0, 0]))))
+    (.ite (.peekEq 2 [1]) (.fail .overlap) (.shift 3))
+
+def milhao : Act := .when (.rangeFree 6 8) (.shift 6)
+
+/-- lemma ↦ instruction (the `match lemmatize(num_func) { … }` of `apply`);
+`mnone = num_marker.is_none()`. -/
+def vocab (mnone : Bool) : List (Word × Act) := [
+  (w!"zero", .put [0]),
+  (w!"um", unit mnone 1),
+  (w!"primeir", .put [1]),
+  (w!"dois", unit mnone 2), (w!"duas", unit mnone 2),
+  (w!"segund", .put [2]),
+  (w!"três", unit mnone 3), (w!"tres", unit mnone 3),
+  (w!"terceir", .put [3]),
+  (w!"quatr", unit mnone 4),
+  (w!"quart", .put [4]),
+  (w!"cinc", unit mnone 5),
+  (w!"quint", .put [5]),
+  (w!"seis", unit mnone 6),
+  (w!"sext", .put [6]),
+  (w!"sete", unit mnone 7),
+  (w!"sétim", .put [7]),
+  (w!"oit", unit mnone 8),
+  (w!"oitav", .put [8]),
+  (w!"nove", unit mnone 9),
+  (w!"non", small mnone [9]),
+  (w!"dez", small mnone [1,0]), (w!"décim", small mnone [1,0]),
+  (w!"onze", small mnone [1,1]),
+  (w!"doze", small mnone [1,2]),
+  (w!"treze", small mnone [1,3]),
+  (w!"catorze", small mnone [1,4]), (w!"quatorze", small mnone [1,4]),
+  (w!"quinze", small mnone [1,5]),
+  (w!"dezasseis", small mnone [1,6]), (w!"dezesseis", small mnone [1,6]),
+  (w!"dezassete", small mnone [1,7]), (w!"dezessete", small mnone [1,7]),
+  (w!"dezoit", small mnone [1,8]),
+  (w!"dezanove", small mnone [1,9]), (w!"dezenove", small mnone [1,9]),
+  (w!"vinte", small mnone [2,0]), (w!"vigésim", small mnone [2,0]),
+  (w!"trint", small mnone [3,0]), (w!"trigésim", small mnone [3,0]),
+  (w!"quarent", small mnone [4,0]), (w!"quadragésim", small mnone [4,0]),
+  (w!"cinquent", small mnone [5,0]), (w!"cinqüent", small mnone [5,0]),
+  (w!"quinquagésim", small mnone [5,0]), (w!"qüinquagésim", small mnone [5,0]),
+  (w!"sessent", small mnone [6,0]), (w!"sexagésim", small mnone [6,0]),
+  (w!"setent", small mnone [7,0]), (w!"septuagésim", small mnone [7,0]), (w!"setuagésim", small mnone [7,0]),
+  (w!"oitent", small mnone [8,0]), (w!"octogésim", small mnone [8,0]),
+  (w!"novent", small mnone [9,0]), (w!"nonagésim", small mnone [9,0]),
+  (w!"cem", .when (.neg onlyMult) (.block ONLY_MULTIPLIERS (.put [1,0,0]))),
+  (w!"cent", hundreds [1,0,0]), (w!"centésim", hundreds [1,0,0]),
+  (w!"duzent", hundreds [2,0,0]), (w!"ducentésim", hundreds [2,0,0]),
+  (w!"trezent", hundreds [3,0,0]), (w!"trecentésim", hundreds [3,0,0]),
+  (w!"quatrocent", hundreds [4,0,0]), (w!"quadringentésim", hundreds [4,0,0]),
+  (w!"quinhent", hundreds [5,0,0]), (w!"quingentésim", hundreds [5,0,0]), (w!"qüingentésim", hundreds [5,0,0]),
+  (w!"seiscent", hundreds [6,0,0]), (w!"sexcentésim", hundreds [6,0,0]), (w!"seiscentésim", hundreds [6,0,0]),
+  (w!"setecent", hundreds [7,0,0]), (w!"septingentésim", hundreds [7,0,0]),
+  (w!"oitocent", hundreds [8,0,0]), (w!"octingentésim", hundreds [8,0,0]),
+  (w!"novecent", hundreds [9,0,0]), (w!"noningentésim", hundreds [9,0,0]), (w!"nongentésim", hundreds [9,0,0]),
+  (w!"mil", mil), (w!"milésim", mil),
+  (w!"milhã", milhao), (w!"milhões", milhao), (w!"milionésim", milhao),
+  (w!"bilhã", .shift 9), (w!"biliã", .shift 9), (w!"bilhões", .shift 9), (w!"biliões", .shift 9),
+  (w!"bilionésim", .shift 9),
+  (w!"e", .when (.and (.lenGe 2) (.and .markerNone (.neg onlyMult))) (.fail .incomplete))
+]
+
+/-- `apply` -/
+def apply (w : Word) (b : DS) : Res × DS :=
+  let numMarker := morph w
+  if !b.isEmpty && numMarker != b.marker then (some .overlap, b)
+  else
+    let act := ((vocab numMarker.isNone).lookup (lemmatize w)).getD (.fail .nan)
+    let (r, b', next) := act.exec b
+    match r with
+    | none => (r, { b' with marker := numMarker, flags := next })
+    | some .incomplete => (r, { b' with flags := CONJUNCTION })
+    | some _ => (r, { b' with flags := 0 })
+
+/-- `apply_decimal` is `apply` -/
+def applyDecimal (w : Word) (b : DS) : Res × DS := apply w b
+
+def insignificant : List Word := [
+  w!"eh", w!"então", w!"bem", w!"isso", w!"outra vez", w!"e", w!"uh", w!"ha", w!"ah", w!"hu", w!"um",
+  w!"menos", w!"ok", w!"sim", w!"mais", w!"aí está",
+  w!"digo", w!"ou", w!"seja", w!"aquele", w!"é", w!"aquilo", w!"em", w!"fim", w!"mais tarde", w!"mas",
+  w!"ei", w!"agora", w!"hum", w!"não", w!"com", w!"são", w!"novamente"]
+
 def lang : Lang where
   code := "pt"
-  apply := fun _ b => (some .nan, b)
-  applyDecimal := fun _ b => (some .nan, b)
-  morph := fun _ => .none
-  isDecSep := fun _ => false
+  apply := apply
+  applyDecimal := applyDecimal
+  morph := morph
+  isDecSep := fun w => w == w!"vírgula"
   decMark := ','
-  isLinking := fun _ => false
+  isLinking := fun w => insignificant.contains w
 
 end T2N.Pt
